@@ -488,6 +488,32 @@ func runSharedOptions(w *hx.Worker) {
 		}
 		w.DistinctS("so" + render(pA.ParseString("", in)))
 	}
+	// the elided types may be the 60th..130th rules of the lexer: token types are numbers of any size
+	for _, fill := range []int{58, 59, 60, 61, 62, 63, 64, 126, 127, 130} {
+		var rules []lexer.SimpleRule
+		for i := 0; i < fill; i++ {
+			rules = append(rules, lexer.SimpleRule{Name: fmt.Sprintf("F%d", i), Pattern: fmt.Sprintf("@f%d@", i)})
+		}
+		rules = append(rules, lexer.SimpleRule{Name: "Ident", Pattern: `[a-zA-Z]`}, lexer.SimpleRule{Name: "Int", Pattern: `[0-9]`}, lexer.SimpleRule{Name: "Punct", Pattern: `;`},
+			lexer.SimpleRule{Name: "Space", Pattern: ` `}, lexer.SimpleRule{Name: "Comment", Pattern: `#`}, lexer.SimpleRule{Name: "NL", Pattern: `\n`})
+		wide, err := lexer.NewSimple(rules)
+		if err != nil {
+			w.Violate(hx.Violation{Key: "shared-options wide lexer", Class: "build-failed", Detail: map[string]any{"err": err.Error()}})
+			break
+		}
+		pw, err := participle.Build[soDoc](participle.Lexer(wide), participle.Elide("Space", "Comment", "NL"))
+		if err != nil {
+			w.Violate(hx.Violation{Key: "shared-options wide lexer", Class: "build-failed", Detail: map[string]any{"err": err.Error()}})
+			break
+		}
+		want := render(pw.ParseString("", "a1;b2;"))
+		for _, in := range []string{"a 1;b 2;", " a1;b2; ", "a#1;\nb 2;#", "\na1 ;b2 ;\n"} {
+			w.Count("evaluations", 1)
+			if got := render(pw.ParseString("", in)); got != want {
+				w.Violate(hx.Violation{Key: fmt.Sprintf("shared-options :: lexer with %d rules in front of Ident..NL, Elide(Space, Comment, NL) :: in=%q", fill, in), Class: "respacing-changes-parse", Detail: map[string]any{"got": got, "unspaced_input_gives": want}})
+			}
+		}
+	}
 	// a parser derived for a sub-production elides like the parser it was derived from
 	derived, err := participle.ParserForProduction[soStmt](refA)
 	if err != nil {
@@ -678,6 +704,10 @@ type numG4 struct {
 var numLexer = lexer.MustSimple([]lexer.SimpleRule{{Name: "Int", Pattern: `[0-9]+`}, {Name: "Ident", Pattern: `[a-z]+`}, {Name: "Punct", Pattern: `;`}, {Name: "Space", Pattern: ` +`}})
 
 func numChain[T any](w *hx.Worker, name string, opts ...participle.Option) {
+	numChainOver[T](w, name, []string{"7", "300", "70000000000", "a", "b", ";"}, 4, opts...)
+}
+
+func numChainOver[T any](w *hx.Worker, name string, toks []string, maxLen int, opts ...participle.Option) {
 	ks := []int{0, 1, 2, 3, participle.MaxLookahead, -1}
 	var ps []*participle.Parser[T]
 	for _, k := range ks {
@@ -688,12 +718,11 @@ func numChain[T any](w *hx.Worker, name string, opts ...participle.Option) {
 		}
 		ps = append(ps, p)
 	}
-	toks := []string{"7", "300", "70000000000", "a", "b", ";"}
 	var ins []string
 	var rec func(prefix []string)
 	rec = func(prefix []string) {
 		ins = append(ins, strings.Join(prefix, " "))
-		if len(prefix) == 4 {
+		if len(prefix) == maxLen {
 			return
 		}
 		for _, t := range toks {
@@ -736,7 +765,71 @@ func numChain[T any](w *hx.Worker, name string, opts ...participle.Option) {
 	}
 }
 
+// a user-implemented union member that consumes two tokens and then fails with a real error (not NextMatch)
+type hePair struct{ A, B string }
+
+func (p *hePair) Parse(lex *lexer.PeekingLexer) error {
+	t := lex.Peek()
+	if t.Value != "a" {
+		return participle.NextMatch
+	}
+	p.A = lex.Next().Value
+	t = lex.Peek()
+	if t.Value != "b" {
+		return participle.Errorf(t.Pos, "hePair: expected b after a")
+	}
+	p.B = lex.Next().Value
+	if lex.Peek().Value == "x" {
+		return participle.Errorf(lex.Peek().Pos, "hePair: x must not follow a pair")
+	}
+	return nil
+}
+
+type heWord struct {
+	W string `@Ident`
+}
+type heItem interface{ heitem() }
+
+func (hePair) heitem() {}
+func (heWord) heitem() {}
+
+type heDoc struct {
+	Items []heItem `@@*`
+	Rest  []string `( ";" @Ident* )?`
+}
+
+// a right-recursive list: one production nested per element
+type rrList struct {
+	Head string  `@Ident`
+	Tail *rrList `@@?`
+}
+
 func runNumericAlternatives(w *hx.Worker) {
+	numChainOver[heDoc](w, "Items []Item `@@*` with Item = Pair (Parseable: a b, hard error when x follows or b is missing) | Word; Rest `( \";\" @Ident* )?`",
+		[]string{"a", "b", "x", "c", ";"}, 5, participle.Union[heItem](&hePair{}, heWord{}))
+	// 12000 nested productions: what parses with little lookahead parses with more and with unlimited lookahead
+	{
+		in := strings.Repeat("a ", 12000)
+		var prevOK *bool
+		prevK := 0
+		for _, k := range []int{1, 50, participle.MaxLookahead, -1, -7} {
+			p, err := participle.Build[rrList](participle.Lexer(numLexer), participle.Elide("Space"), participle.UseLookahead(k))
+			if err != nil {
+				w.Violate(hx.Violation{Key: "deep right recursion build", Class: "build-failed", Detail: map[string]any{"err": err.Error()}})
+				break
+			}
+			var perr error
+			pan, msg := hx.Guard(func() { _, perr = p.ParseString("", in) })
+			w.Count("evaluations", 1)
+			ok := !pan && perr == nil
+			if prevOK != nil && *prevOK && !ok {
+				w.Violate(hx.Violation{Key: fmt.Sprintf("deep right recursion :: type L struct { Head string `@Ident`; Tail *L `@@?` } :: in=(a )^12000 :: k=%d->%d", prevK, k), Class: "success-lost-with-more-lookahead", Detail: map[string]any{"error": fmt.Sprint(perr), "panic": msg}})
+			}
+			okc := ok
+			prevOK, prevK = &okc, k
+			w.DistinctS(fmt.Sprintf("deep%d%v", k, ok))
+		}
+	}
 	numChain[numG1](w, "Vals []Val `@@*` with Val = Small{int8} | Big{int64} | Word", participle.Union[numVal](numSmall{}, numBig{}, numWord{}))
 	numChain[numG2](w, "A []int8 `( @Int \"a\"`; B []int64 `| @Int \"b\" )*`")
 	numChain[numG3](w, "A *int8 `( @Int \";\" )?`; B []int64 `@Int*`; C string `@Ident?`")
